@@ -21,10 +21,13 @@ KNOWN_C20 = "F-C20-pool-donation"
 
 
 # --------------------------------------------------------------------------- attribution
-def tags_of(cls, stage, kind, fields):
+def tags_of(cls, stage, kind, why, fields):
     """Properties in whose footprint a spec/impl divergence found in replay lies.  cls = the specification's class of the
     request (new / edit / transfer / app_unstake / app_unjail / send / rejected / tick), stage = ABCI stage (BeginBlock /
-    result / DeliverTx / EndBlock), kind = message kind, fields = the differing field paths."""
+    result / DeliverTx / EndBlock), kind = message kind, why = the specification's reason for refusing an authenticated
+    stake request ("ok" = accepted), fields = the differing field paths.  An edit-stake belongs to C23 except where it
+    runs into an ADMISSION limit (chain count, funds for the bump): those belong to C28 on the fresh-stake and on the
+    edit path alike."""
     tags = set()
     if stage == "BeginBlock":
         return tags            # fee distribution belongs to the auth / nodes modules
@@ -34,7 +37,12 @@ def tags_of(cls, stage, kind, fields):
         if cls in ("new", "transfer") or (cls == "rejected" and kind == "app_stake"):
             tags.add("C28")
         if cls == "edit":
-            tags.add("C23")
+            if why == "toomanychains":
+                tags.add("C28")
+            elif why == "coins":
+                tags.update(("C23", "C28"))
+            else:
+                tags.add("C23")
         if cls == "app_unstake" or (cls == "rejected" and kind == "app_unstake"):
             tags.add("C24")
     if "application_staked_tokens_pool" in fields or ".tokens" in fields or "supply" in fields:
@@ -52,7 +60,8 @@ def tags_of_mismatch(m):
     kind = (hist[step].get("tx") or {}).get("kind", "") if step < len(hist) else ""
     what = m.get("what", "")
     fields = ",".join(p.split(": spec=")[0] for p in what.split("; "))
-    return tags_of(m.get("op") or "", m.get("variant") or "", kind, fields)
+    why = hist[step].get("why", "") if step < len(hist) else ""
+    return tags_of(m.get("op") or "", m.get("variant") or "", kind, why, fields)
 
 
 # --------------------------------------------------------------------------- stages
@@ -96,8 +105,8 @@ def _model_stage(c, pid, init, cfg, what, simulate=None, workers=8):
     mine_n = other_n = 0
     for k, v in rep.get("op_counts", {}).items():
         if k.startswith("!"):          # a divergence, keyed class|stage|kind|fields: attribute every one of them
-            cls, stage, kind, fields = (k[1:].split("|", 3) + ["", "", ""])[:4]
-            if pid in tags_of(cls, stage, kind, fields):
+            cls, stage, kind, why, fields = (k[1:].split("|", 4) + ["", "", "", ""])[:5]
+            if pid in tags_of(cls, stage, kind, why, fields):
                 mine_n += v
             else:
                 other_n += v
